@@ -61,6 +61,9 @@ type Plan struct {
 	PadBytes      int  // commands carry this many extra (compressible) bytes
 	// Witness: host Hosts-1 joins as a witness (votes, stores metadata only, has no state machine)
 	Witness bool
+	// SnapPadKB: every snapshot image is followed by this many KB of position dependent
+	// filler (several 2 MiB blocks / chunks when large); checked by RecoverFromSnapshot
+	SnapPadKB int
 	// AuxPct: percentage of client operations that are auxiliary requests (QueryRaftLog,
 	// RequestCompaction) instead of reads and writes
 	AuxPct int
@@ -358,6 +361,8 @@ func resultOutcome(r dragonboat.RequestResult) string {
 // RunPlan executes one plan on a fresh cluster and returns the recorded result.
 func RunPlan(p Plan) *Result {
 	rec := NewRecorder()
+	atomic.StoreInt32(&SnapshotPad, int32(p.SnapPadKB)<<10)
+	defer atomic.StoreInt32(&SnapshotPad, 0)
 	rec.Widen = time.Duration(p.WidenUs) * time.Microsecond
 	rec.SlowSnapshot = time.Duration(p.SlowSnapMs) * time.Millisecond
 	rec.SlowRecover = time.Duration(p.SlowRecoverMs) * time.Millisecond
